@@ -211,7 +211,10 @@ func c05static(c *engine.Ctx, ctxs []gen.Ctx) {
 		}
 	}
 	// parse errors after complete forms
-	for _, txt := range []string{`(def c 1) (+ 1`, `(def c 1) )`, `(def c 1) "abc`, `(def c 1) 1e`, `(def c 1) [1 2`, `(def c 1) (h 1 1) 'ab'`, `(def c 1) #`, "(def c 1) (quote \\x)"} {
+	for _, txt := range []string{`(def c 1) (+ 1`, `(def c 1) )`, `(def c 1) "abc`, `(def c 1) 1e`, `(def c 1) [1 2`, `(def c 1) (h 1 1) 'ab'`, `(def c 1) #`, "(def c 1) (quote \\x)",
+		// unfinished inside a construct nested two or more levels deep (the suspended parse has to unwind through several frames)
+		`(def c 1) (defn f [a b`, `(def c 1) (let [a 1`, `(def c 1) (+ 1 (`, "(def c 1) (list `raw", `(def c 1) (a /* c`, `(def c 1) ((`, `(def c 1) [[`, `(def c 1) (list 1 [2 3`,
+		`(def c 1) (f {a`, `(def c 1) {a = [1`, `(def c 1) (list "abc`, `(def c 1) ^(a ~(b`, `(def c 1) (hash a: [1 (`, `(def c 1) {a = (f [`, `(def c 1) (((`} {
 		if c.Mine() {
 			c05staticCase(c, "P|"+txt, txt, "parse/"+txt)
 		}
